@@ -67,6 +67,18 @@ Theorem unauthenticated_is_401 :
     all_known (server_layers tree) req = true -> r_kind r = A_unauth -> wms_map tree req (Some r) = W_401.
 Proof. exact wms_map_unauth_401. Qed.
 
+(* combined_layers (adjacent layers fetched with one upstream request), for every compatibility relation of the
+   sources: every source is still rendered under the limited_to of its own layer, in order ... *)
+Theorem combined_layers_keep_limits :
+  forall compat rl, expand_groups (combine_entries compat rl) = rl.
+Proof. exact combine_entries_expand. Qed.
+
+(* ... and a limited layer is never merged with a neighbour into one request *)
+Theorem limited_layers_are_not_combined :
+  forall compat rl g srcs,
+    In (Some g, srcs) (combine_entries compat rl) -> length srcs = 1%nat.
+Proof. exact combine_entries_limited_alone. Qed.
+
 (* Global clip, every path of LayerMerger.merge (no layer, the single-layer shortcut - which a coverage
    disables -, the loop): whatever the layer images, their modes, opacities and masks are, a pixel outside the
    mask of the global coverage is exactly the pixel create_image() starts with: bgcolor, alpha 0 for
